@@ -119,9 +119,9 @@ def rule_r3(ctx):
 
 
 def run(ctx):
-    rule_r1(ctx)
-    rule_r2(ctx)
-    rule_r3(ctx)
+    ctx.guard(rule_r1)
+    ctx.guard(rule_r2)
+    ctx.guard(rule_r3)
     from . import c14
     c14.rule_r4(ctx)          # R5: a lost or rejected connection is redialled (shared with C14)
     for rr in ctx.rules:
